@@ -229,7 +229,7 @@ fn families(thorough: bool) -> Vec<(String, String)> {
     // legal corner programs: every way a program can end (a taken jump / loop / call-free fall to a label that is
     // the very last thing in the file, after a hlt, an ordinary instruction or nothing; with and without final newline)
     for j in ["jmp e_", "je e_", "loop e_", "jcxz e_", ""] {
-        for last in ["hlt\n", "inc ax\n", "print reg\n", ""] {
+        for last in ["hlt\n", "inc ax\n", "print reg\n", "", "nop\nprint reg\n", "nop\nnop\ninc ax\nint 3\n"] {
             for tail in ["e_:\n", "e_:", "e_: ; end\n", "e_:\n\n\n"] {
                 let text = format!("start:\nxor cx, cx\n{}\n{}{}", j, last, tail);
                 v.push((format!("program end: {:?} / {:?} / {:?}", j, last, tail), text));
